@@ -45,6 +45,7 @@ EXPLANATION = (
     "(E1b) connection_lost evaluated abstractly with exc set, or a clean close before any header, ends in set_exception on every feasible path. (E6) The C07.S3 segmentation rule set on both client data_received methods, including limit consistency between unterminated buffer and complete line. "
     "(E1, ctors) a package constructor's raise-set is what its __init__/__post_init__ raises. "
     "(E2, type) the receive buffer is an immutable bytes value (a binary body is handed out as bytes)."
+    " (E8) LocationConfig.from_dict, run abstractly for a table without a `timeout` key, passes a number (never None) as timeout on every feasible path: the wait_for bound of E4 exists. (E9) the client's match of a parameter name against 'charset' sits in a loop / comprehension over all `;`-separated parameters. (E10) the status token reaches int() only behind an ASCII-digit test (re.fullmatch on a digit class, or isascii() and isdigit()); E2 is evaluated on exact header samples, including malformed tokens that int() alone reads as 20."
 )
 
 PROTOS = ["client.protocol:GeminiClientProtocol", "client.protocol:TitanClientProtocol"]
@@ -181,19 +182,33 @@ def rule_e2(chk: Check) -> None:
         if ph is None or cl is None:
             continue
         g = build_cfg(chk.proj, ph)
-        for k in (5, 9, 10, 20, 29, 30, 69, 70, 99):
+        hparam = next((p_ for p_ in ph.params if p_ != "self"), None)
+        samples = [(f"{k:02d} text/plain", k, not (10 <= k <= 69)) for k in (5, 9, 10, 20, 29, 30, 69, 70, 99)]
+        # malformed status tokens that int() alone reads as 20 (library fact): always an error
+        samples += [(t + " text/plain", 20, True) for t in ("2_0", "+20", "020", "\t20")]
+        for header, k, want in samples:
             interp = Interp(chk.proj, ph)
-            interp.call_oracle = lambda c, _k=k: IntV(_k, _k) if dotted(c.func) == "int" else None
-            res = interp.run_paths(g, lambda n: [ast.Constant(value=0)] if n.ast is not None and n.kind == "stmt" and any(dotted(c.func) == "self._set_error" for c in calls(n.ast)) else [], {})
+
+            def _oracle(c, _k=k, _i=interp):
+                # a status conversion the evaluator cannot fold from the sample header
+                # (unusual way of cutting the token) still yields the sample's status
+                if dotted(c.func) == "int" and c.args:
+                    v = _i.eval(c.args[0], {})
+                    if not (isinstance(v, StrV) and v.exact is not None):
+                        return IntV(_k, _k)
+                return None
+
+            interp.call_oracle = _oracle
+            res = interp.run_paths(g, lambda n: [ast.Constant(value=0)] if n.ast is not None and n.kind == "stmt" and any(dotted(c.func) == "self._set_error" for c in calls(n.ast)) else [], {hparam: lit(header)} if hparam else {})
             errs = set()
             for path, (st, recs) in res:
                 if path[-1][0].kind == "exit":
                     errs.add(bool(recs))
-            want = not (10 <= k <= 69)
             ok = errs == {want}
+            tag = k if header[:2].isdigit() and header[2] == " " else header.split(" ")[0].encode("unicode_escape").decode()
             if not ok:
-                chk.finding("E2", ph.key, f"status-range:{k}", f"for status {k} _parse_header {'does not report' if want else 'reports'} an error (observed error on paths: {sorted(errs)})", ph.loc())
-            chk.ob("E2", f"{ph.key}: status {k} -> {'error' if want else 'accepted'}", ok, evals=max(1, len(res)))
+                chk.finding("E2", ph.key, f"status-range:{tag}", f"for the header {header!r} _parse_header {'does not report' if want else 'reports'} an error (observed error on paths: {sorted(errs)})", ph.loc())
+            chk.ob("E2", f"{ph.key}: header {header!r} -> {'error' if want else 'accepted'}", ok, evals=max(1, len(res)))
         g2 = build_cfg(chk.proj, cl)
         ctor = [n for n in g2.nodes if n.ast is not None and n.kind == "stmt" and any((dotted(c.func) or "").split(".")[-1] == "GeminiResponse" for c in calls(n.ast))]
         chk.require("E2", cl.key, "GeminiResponse construction", len(ctor), 1, "connection_lost builds no response")
@@ -384,6 +399,37 @@ def rule_e8(chk: Check, R: str = "E8") -> None:
         chk.ob(R, f"{ci.key}: timeout field default is a number", okd)
 
 
+def rule_e10(chk: Check, R: str = "E10") -> None:
+    """'Status in 10-69' is a statement about the two digits the server sent.
+    int() also reads '2_0', '+20', '\\t20', '020' and non-ASCII digits as 20: a
+    malformed header would be delivered as a success."""
+    from .common import strict_int_guarded
+
+    chk.rule(R, "the status token is tested to consist of ASCII digits before int(): a header whose status is not two digits ('2_0', '+20', '020', non-ASCII digits) is an error, not a 20")
+    cp = chk.proj.module("client.protocol")
+    n_sites = 0
+    for ci in cp.classes.values():
+        for m in ci.methods.values():
+            ints = [c for c in calls(m.node) if dotted(c.func) == "int" and c.args and not isinstance(c.args[0], ast.Constant)]
+            if not ints:
+                continue
+            g = build_cfg(chk.proj, m)
+            for ic in ints:
+                node = next((x for x in g.nodes if x.ast is not None and x.kind in ("stmt", "test") and any(c is ic for c in calls(x.ast))), None)
+                if node is None:
+                    continue
+                n_sites += 1
+                ok = strict_int_guarded(g, node, ic)
+                if not ok:
+                    chk.finding(
+                        R, m.key, f"status-int-lenient:{norm(ic)[:40]}",
+                        f"`{norm(ic)}` parses the status token with int() alone, which also accepts '2_0', '+20', a leading TAB, '020' and non-ASCII digits: a header that is not `<two digits> <meta>` is delivered as a response with status 20 instead of an error (the reverse proxy relays it instead of answering 43)",
+                        node.where(),
+                    )
+                chk.ob(R, f"{m.key}: `{norm(ic)[:40]}` behind an ASCII-digit test", ok)
+    chk.require(R, "client.protocol", "int() conversions of header text", n_sites, 1, "the status is no longer converted with int(): rule anchor lost")
+
+
 def _canon(fn: ast.AST) -> str:
     body = [s for s in fn.body if not (isinstance(s, ast.Expr) and isinstance(s.value, ast.Constant))]
     s = norm(ast.Module(body=body, type_ignores=[]))
@@ -453,6 +499,7 @@ def run(chk: Check) -> None:
     rule_e4(chk)
     rule_e5_e6(chk)
     rule_e8(chk)
+    rule_e10(chk)
     from .c18 import charset_scan_covers_all
 
     _cp = chk.proj.module("client.protocol")
